@@ -64,6 +64,10 @@ func (file *File) Readn(buf []byte, offset uint64) (int, error) {
 	ret := 0
 	for len(buf) > 0 {
 		n, err := file.ReadAt(buf, int64(offset))
+		if err == io.EOF {
+			/* end of file: return what was read so far */
+			break
+		}
 		if err != nil {
 			return 0, err
 		}
